@@ -187,7 +187,10 @@ pub fn build_raw_counted(geom: Geom, ty: u64, kvs: &[Kv]) -> Result<(Vec<u8>, (u
             e2s(b.insert(k, *v))?;
         }
         let c = b.verif_registry_counters();
-        Ok((e2s(b.into_inner())?, c))
+        let bytes = e2s(b.into_inner())?;
+        // read after finishing: the last nodes are compiled by into_inner
+        let ld = |i: usize| c[i].load(std::sync::atomic::Ordering::Relaxed);
+        Ok((bytes, (ld(0), ld(1))))
     })
     .and_then(|x| x)
 }
